@@ -791,10 +791,11 @@ class SqlalchemyRender:
 
             sql_query = str(ast_query)
             if self.dialect.name == 'postgresql':
-                # back-quotes are not postgres syntax; inside of a string constant they are data and stay
+                # back-quotes are not postgres syntax; inside of a string constant they are data and stay.
+                # A back-quoted name is taken as a whole: an apostrophe inside it does not start a string constant
                 sql_query = re.sub(
-                    r"'(?:[^'\\]|\\.|'')*'|`",
-                    lambda m: '' if m.group(0) == '`' else m.group(0),
+                    r"'(?:[^'\\]|\\.|'')*'|`[^`]*`|`",
+                    lambda m: m.group(0).replace('`', '') if m.group(0).startswith('`') else m.group(0),
                     sql_query
                 )
             return sql_query, None
